@@ -24,7 +24,7 @@ from unittest import mock
 
 from common import q, lst, natlit, zlit, blit
 
-from ckpt_backend import CkptBackend, Recorder, METRIC, RESOURCE, MAX_RES, metric_value
+from ckpt_backend import CkptBackend, Recorder, Explorer, METRIC, RESOURCE, MAX_RES, metric_value
 
 IMPORTS = "From Verif Require Import model.Base model.Checkpoint.\nOpen Scope Q_scope.\n"
 
@@ -47,10 +47,11 @@ Definition chk_sync (c : sync_case) : bool :=
   let '(cf, tbl, mx, its, impl) := c in
   trace_eqb (filter is_cmp_event (run sync_sched cf (init (sync0 tbl mx)) its)) impl.
 
-Definition pbt_case := (cfg * pbt_prm * list (iter_in (Q * Q * Z) unit) * list event)%type.
+(* bool: does the code show the behaviour after the fix of F-C20-1 (probe in the driver)? *)
+Definition pbt_case := (cfg * bool * pbt_prm * list (iter_in (Q * Q * Z) Z) * list event)%type.
 Definition chk_pbt (c : pbt_case) : bool :=
-  let '(cf, prm, its, impl) := c in
-  trace_eqb (filter is_cmp_event (run (pbt_sched prm) cf (init pbt0) its)) impl.
+  let '(cf, fixed, prm, its, impl) := c in
+  trace_eqb (filter is_cmp_event (run (pbt_sched_gen fixed prm) cf (init pbt0) its)) impl.
 """
 
 HB_KINDS = ["promotion", "pasha", "rush_promotion", "cost_promotion"]
@@ -88,7 +89,7 @@ def gen_spec(rng, kind=None):
     return spec
 
 
-def build_scheduler(spec):
+def build_scheduler(spec, be=None):
     from syne_tune.config_space import uniform, randint
     kind = spec["kind"]
     cs = {"lr": uniform(0, 1), "w": randint(0, 10)}
@@ -126,7 +127,8 @@ def build_scheduler(spec):
         return GeometricDifferentialEvolutionHyperbandScheduler(cs, grace_period=1, reduction_factor=spec["rf"],
                                                                 **common)
     from syne_tune.optimizer.schedulers.pbt import PopulationBasedTraining
-    return PopulationBasedTraining(cs, max_t=spec["max_t"], population_size=spec["population_size"],
+    return PopulationBasedTraining(cs, custom_explore_fn=Explorer(be) if be is not None else None,
+                                   max_t=spec["max_t"], population_size=spec["population_size"],
                                    perturbation_interval=spec["interval"], quantile_fraction=spec["qf"], **common)
 
 
@@ -147,7 +149,7 @@ def run_case(spec):
     from syne_tune.callbacks.remove_checkpoints_callback import RemoveCheckpointsCallback
     rng = random.Random(spec["seed"])
     be = CkptBackend(rng, spec, delete_checkpoints=spec["delete_checkpoints"])
-    sch = build_scheduler(spec)
+    sch = build_scheduler(spec, be)
     cbs = [Recorder(be)]
     if spec["kind"] == "sync" and spec["remove_callback"] and not spec["delete_checkpoints"]:
         cbs.append(RemoveCheckpointsCallback())
@@ -161,7 +163,8 @@ def run_case(spec):
             tuner.run()
         except Exception as e:  # the finally block (stop_all) has run
             crash = "%s: %s" % (type(e).__name__, str(e)[:200])
-    extra = dict(crash=crash, plan=be.plan_out, callbacks=[type(c).__name__ for c in tuner.callbacks])
+    extra = dict(crash=crash, plan=be.plan_out, callbacks=[type(c).__name__ for c in tuner.callbacks],
+                 pbt_fixed=PBT_FIXED.get("value", True))
     if spec["kind"] == "sync":
         extra["tbl"] = [[(int(s), int(l)) for s, l in rungs] for rungs in sch.bracket_manager.bracket_rungs]
     return be.log, extra
@@ -404,26 +407,49 @@ def model_cases(spec, log, extra):
         sign = 1.0 if spec["mode"] == "max" else -1.0
         b_its = []
         for it in its:
-            pairs = pair_reports(it)
-            # clone decisions (STOP below max_t) are popped LIFO by the starts of the same iteration
-            froms = [e[2] for e in it["body"] if e[0] == "start" and e[2] is not None]
-            clone_ds = [d for _, d in pairs if d and d[2] == "STOP" and d[3] < spec["max_t"]]
-            choice = {}
-            for d, j in zip(clone_ds, reversed(froms[:len(clone_ds)])):
-                choice[id(d)] = j
+            # PBT calls the harness's custom_explore_fn with the config of the trial it drew: an
+            # "explore" event right before a STOP decision = the clone source chosen then; right
+            # before a start = the source re-drawn by _suggest
+            choice, redraw, last = {}, [], None
+            for e in it["body"]:
+                if e[0] == "explore":
+                    last = e[1]
+                elif e[0] == "decision":
+                    if last is not None:
+                        choice[id(e)] = last
+                    last = None
+                elif e[0] == "start":
+                    redraw.append(last if last is not None else 0)
+                    last = None
             reps = []
-            for t, d in pairs:
+            for t, d in pair_reports(it):
                 ep = d[3] if d else 0
                 m = metric_value(spec, t, ep) if d else 0.0
                 reps.append("(%s, (%s, %s, %s))" % (zl(t), q(ep), q(sign * m), zl(choice.get(id(d), 0) if d else 0)))
-            n_sg = sum(1 for e in it["body"] if e[0] == "start")
-            b_its.append(iter_term(reps, it["completed"], ["tt"] * n_sg, []))
+            b_its.append(iter_term(reps, it["completed"], [zl(j) for j in redraw], []))
         prm = "{| pp_max_t := %s; pp_interval := %s; pp_qf := %s |}" % (q(spec["max_t"]), q(spec["interval"]), q(spec["qf"]))
-        out["pbt"] = "(%s, %s, %s, %s)" % (cf, prm, lst(b_its), impl)
+        out["pbt"] = "(%s, %s, %s, %s, %s)" % (cf, blit(extra["pbt_fixed"]), prm, lst(b_its), impl)
     return out
 
 
 # ---------------------------------------------------------------------------------
+PBT_FIXED = {}
+PROBE_SPEC = dict(kind="pbt", seed=0, curve_seed=0, n_workers=2, delete_checkpoints=True, max_steps=3, polls=2,
+                  flavour="plain", mode="min", use_max_resource_attr=False, remove_callback=False, speculative=None,
+                  max_t=3, population_size=2, interval=1, qf=0.5, worker_epochs=5,
+                  curve_table={"0:1": 2.0, "0:2": 2.0, "1:1": 1.0, "1:2": 1.0, "1:3": 1.0}, plan=[2, 3, 0, 1, 0, 0, 0])
+
+
+def probe_pbt_mode():
+    """Which of the two modelled behaviours of PBT._suggest does the code under test show on the minimal
+    scenario of finding F-C20-1 (clone source stopped later in the same batch)?  True = source re-drawn /
+    fresh start (pbt_sched), False = stopped source used (pbt_sched_unfixed).  Only selects the model the
+    PBT runs are compared with; the property checker does not depend on it."""
+    log, _ = run_case(dict(PROBE_SPEC))
+    starts = [e for e in log if e[0] == "start" and e[1] == 2]
+    return not (starts and starts[0][2] == 1)
+
+
 def corpus_specs():
     """minimised cases that run first: corpus/C20/*.json and the replays of known findings"""
     import glob
@@ -454,6 +480,9 @@ def run(ctx, replay=None):
                 "poll; non-trivial = at least one poll delivering reports of >= 2 different trials AND at least one "
                 "resume or clone AND (deletion enabled => at least one deletion); distinct by content hash")
     rng = ctx.rng
+    PBT_FIXED["value"] = probe_pbt_mode()
+    ctx.notes.append("PBT._suggest behaviour on the F-C20-1 scenario: %s" % (
+        "source re-drawn (model pbt_sched)" if PBT_FIXED["value"] else "stopped source used (model pbt_sched_unfixed)"))
     if replay is not None:
         specs = [replay["spec"]]
     else:
@@ -473,6 +502,10 @@ def run(ctx, replay=None):
         for k in ("deletes", "stop_deletes", "removable", "resumes", "clones", "spec_resume_no_ckpt"):
             ctx.h("events", k, stats[k])
         ctx.h("polls_with_2plus_trials", sum(1 for e in log if e[0] == "poll" and len(set(e[1])) >= 2) > 0)
+        if spec["kind"] == "pbt":
+            ctx.h("pbt", "clone_source_redrawn",
+                  sum(1 for a, b in zip(log, log[1:]) if a[0] == "explore" and b[0] == "start"))
+            ctx.h("pbt", "clone_decisions", sum(1 for a, b in zip(log, log[1:]) if a[0] == "explore" and b[0] == "decision"))
         if extra["crash"]:
             ctx.h("tuner_exception", extra["crash"][:80])
         ctx.sample(dict(spec=spec, log_head=[list(e) for e in log[:25]], stats=stats), limit=3)
